@@ -68,6 +68,12 @@ def cases(tier, seed):
             days.append(days[-1] + rng.randrange(1, 400))
         yield dict(kind='xirr', flows=fl, days=days)
         yield dict(kind='xnpv', r=(r if r > -0.9 else 0.07), flows=fl, flows2=gen_flows(rng, k), days=days, a=round(rng.uniform(-3, 3), 3))
+        if i % 10 == 0:
+            early = [rng.choice([1, 30, 58, 59])]
+            for _ in range(k - 1):
+                early.append(early[-1] + rng.choice([1, 1, 2, 30]))
+            yield dict(kind='xnpv', r=0.1, flows=fl, flows2=gen_flows(rng, k), days=early, a=1.5)
+            yield dict(kind='xirr', flows=fl, days=early)
 
 
 def _num(x):
